@@ -209,7 +209,7 @@ func PuttyPPK(info Info, data []byte) (Info, error) {
 func RPMFile(info Info, data []byte) (Info, error) {
 	info.Description = "RPM"
 
-	r, err := rpm.ReadPackageFile(bytes.NewReader(data))
+	r, err := readRPMPackage(data)
 	if err != nil {
 		return info, fmt.Errorf("rpm.ReadPackageLead: %w", err)
 	}
